@@ -60,6 +60,15 @@ Subset
                in the order of that dict: `src_sparse_sum N (arr_union : list Z -> list Z -> list Z) ind1 ...`.  Meaning:
                helper is a pure function returning a FRESH array (no aliasing with its arguments: python's
                `arr_union` returning `ar2` itself is not modelled; only the returned value is).
+               A function-valued ARGUMENT of the translated function may be declared opaque the same way (`metric` of
+               fast_metric_intersection): it is then not an ordinary parameter of `src_<f>` but its opaque function parameter
+               (same position as other helpers: after `N` [`E`] [`pinf`]); only calls `metric(..)` of it are accepted, any
+               other use of the name (passing it on, comparing it, rebinding it) is rejected, and a translated function that
+               takes a function argument cannot be called from another translated function.  Meaning: the argument is a
+               pure function of the listed argument types (it neither stores into its array arguments nor keeps state).
+  fixed ()   : `sigs[fn]['fixed'] = {'metric_args': ()}`: the function is translated for calls that pass the EMPTY TUPLE for
+               this argument.  The argument disappears; its only accepted use is `*metric_args` in the argument list of a call,
+               which expands to no arguments; every other read of the name is rejected.
 Extensions for the kNN kernels of umap_.py (C01)
   2-d arrays : `a[i, j]` on M (`mnth`) and MZ (`imnth`), `a[i]` = row (`mrow` / `imrow`), `a.shape[1]` = length of row 0,
                `a.size` = shape[0] * shape[1] (`msize`; a 2-d array is a rectangular list of rows), `a.ravel()` on M =
@@ -134,6 +143,28 @@ Extensions for the SGD epoch kernel of layouts.py (C07; semantics: header of lib
                `from <python module> import <name>` (checked on the current source) is translated from that file.
   other      : `numba.prange` = `range` (sequential semantics only); a variable that is an int on one path of an `if` and a
                float on the other is coerced to float (`of_Z`) at the join.
+Extensions for the densMAP kernels of layouts.py (C17; exemplar coq/link/L_dens.v)
+  fill       : the statement `x.fill(c)` with x a 1-d float ARGUMENT array (type V) and c an int / float scalar expression that does not
+               read x: every entry of x is replaced by c (an int c is converted with `of_Z`; float32 storage is not rounded), the
+               length is unchanged: `let x := vmap1 N (fun _ => c) x in`.  x counts as mutated (it is part of the function's result, as
+               for `x[i] = ..`).  Accepted only as a top-level statement of the function body (not inside a loop / if); `.fill` on
+               anything else (2-d arrays, int arrays, local arrays, views) is rejected.
+  prange     : the statistics loop of `_optimize_layout_euclidean_densmap_epoch_init` is a `numba.prange` whose iterations are NOT
+               independent (`re_sum[j] += ..` from different edges hit the same vertex): the generated definition is the SEQUENTIAL
+               loop (parallel=False, which umap uses whenever random_state is given); the parallel=True compilation races on these
+               cells and is not described.
+Extensions for the generic-output-metric epoch kernel of layouts.py (C07; exemplar coq/link/L_sgdg.v)
+  fnargs     : `sigs[fn]['fnargs'] = {'output_metric': ([V, V], (F, V))}`: the ARGUMENT `output_metric` of the source function is a
+               function (numba first-class function).  It is treated exactly like an opaque helper (above): the parameter moves
+               from the ordinary arguments to the function parameters after `N` (`src_f N (output_metric : list N -> list N ->
+               (N * list N)) ...`), a call `output_metric(x, y)` is its application.  Meaning: a PURE function that does not store
+               into its arguments; a tuple result type is a Coq pair (bound by `d, g = output_metric(..)`), every array component
+               FRESH.  The name may only be called (any other read, an assignment to it, or a default value is rejected).
+  empty_star : `sigs[fn]['empty_star'] = ['output_metric_kwds']`: translate FOR CALLS IN WHICH THESE TUPLE ARGUMENTS ARE EMPTY:
+               the parameter disappears, a starred call argument `*output_metric_kwds` contributes no argument, every other
+               occurrence of the name is rejected.  The link theorems then speak about such calls only (non-empty
+               `output_metric_kwds` -- e.g. the `sigma` of weighted / Mahalanobis output metrics -- stay outside the tie).
+               Any other starred argument is rejected as before.
 """
 import ast, decimal, hashlib
 
@@ -877,6 +908,8 @@ class FnTranslator:
             info = self.module_fns[name]
             if kw:
                 raise Unsupported("keyword call of " + name)
+            if info.get("fnparams"):
+                raise Unsupported("call of %s, which takes a function argument" % name)
             dfl = info.get("defaults", {})
             if len(n.args) > len(info["args"]) or any(an not in dfl for an, _ in info["args"][len(n.args):]):
                 raise Unsupported("call of %s with defaults" % name)
@@ -1005,6 +1038,21 @@ class FnTranslator:
         if isinstance(s, ast.Expr):
             if isinstance(s.value, ast.Constant) and isinstance(s.value.value, str):
                 return self.block(rest, env, k)
+            fl = self.fill_stmt(s.value)
+            if fl is not None:
+                # `x.fill(c)`, x a 1-d float ARGUMENT array (part of the function's result): every entry replaced by c
+                arr, cnode = fl
+                if self.nest or self.cond_depth:
+                    raise Unsupported(".fill inside a loop / if")
+                if env.get(arr) != V or arr not in self.mutated or arr in env.get("%views", ()):
+                    raise Unsupported(".fill on something that is not a 1-d float argument array")
+                if arr in used_names([cnode]):
+                    raise Unsupported(".fill value reads the array")
+                e, t = self.expr(cnode, env)
+                self.no_pre()
+                if t not in (F, I):
+                    raise Unsupported(".fill with a non-scalar")
+                return "let %s := (vmap1 N (fun _ => %s) %s) in\n" % (self.var(arr), self.coerce(e, t, F), self.var(arr)) + self.block(rest, env, k)
             raise Unsupported("expression statement")
         if isinstance(s, ast.Pass):
             return self.block(rest, env, k)
@@ -1043,6 +1091,14 @@ class FnTranslator:
         if isinstance(s, ast.While):
             return self.whilestmt(s, rest, env, k)
         raise Unsupported("statement " + type(s).__name__)
+
+    @staticmethod
+    def fill_stmt(v):
+        """`x.fill(c)` (x a name, one positional argument, no keywords) -> (x, c node), else None"""
+        if isinstance(v, ast.Call) and isinstance(v.func, ast.Attribute) and v.func.attr == "fill" and isinstance(v.func.value, ast.Name) \
+                and len(v.args) == 1 and not v.keywords and not isinstance(v.args[0], ast.Starred):
+            return v.func.value.id, v.args[0]
+        return None
 
     def as_load(self, t):
         if isinstance(t, ast.Name):
@@ -1465,11 +1521,23 @@ class FnTranslator:
         fn = copy.deepcopy(fn)
         names = {a.arg for a in fn.args.args}
         for nm, val in fixed.items():
-            if nm not in names or not isinstance(val, bool):
+            if nm not in names or not (isinstance(val, bool) or val == ()):
                 raise Unsupported("fixed argument %s is not a boolean argument of the function" % nm)
         for x in ast.walk(fn):
             if isinstance(x, ast.Name) and x.id in fixed and not isinstance(x.ctx, ast.Load):
                 raise Unsupported("fixed argument %s is assigned" % x.id)
+        # an argument fixed to the empty tuple `()`: its only accepted use is `*name` in the argument list of a call, which
+        # expands to no arguments; every other read of the name is rejected
+        empty = {nm for nm, val in fixed.items() if val == () and not isinstance(val, bool)}
+        if empty:
+            for x in ast.walk(fn):
+                if isinstance(x, ast.Call):
+                    x.args = [a for a in x.args if not (isinstance(a, ast.Starred) and isinstance(a.value, ast.Name) and a.value.id in empty)]
+            for x in ast.walk(fn):
+                if isinstance(x, ast.Name) and x.id in empty:
+                    raise Unsupported("argument %s (fixed to the empty tuple) is used other than as `*%s` in a call" % (x.id, x.id))
+            fixed = {nm: val for nm, val in fixed.items() if nm not in empty}
+            fn.args.args = [a for a in fn.args.args if a.arg not in empty]
 
         class Sub(ast.NodeTransformer):
             def visit_Name(self, node):
@@ -1547,6 +1615,27 @@ class FnTranslator:
         fn.args.args = [a for a in fn.args.args if a.arg not in alias]
         return fn
 
+    def drop_empty_star(self, fn, names):
+        """copy of fn for calls in which the tuple arguments `names` are EMPTY tuples: the parameters disappear and a starred
+        call argument `*name` contributes no argument; any other occurrence of such a name is rejected"""
+        import copy
+        fn = copy.deepcopy(fn)
+        have = [a.arg for a in fn.args.args]
+        nd = len(fn.args.defaults)
+        for nm in names:
+            if nm not in have:
+                raise Unsupported("empty_star: %s is not an argument" % nm)
+            if nd and nm in have[len(have) - nd:]:
+                raise Unsupported("empty_star: argument %s has a default value" % nm)
+        for x in ast.walk(fn):
+            if isinstance(x, ast.Call):
+                x.args = [a for a in x.args if not (isinstance(a, ast.Starred) and isinstance(a.value, ast.Name) and a.value.id in names)]
+        for x in ast.walk(fn):
+            if isinstance(x, ast.Name) and x.id in names:
+                raise Unsupported("tuple argument %s (translated as the empty tuple) is used other than as `*%s` in a call" % (x.id, x.id))
+        fn.args.args = [a for a in fn.args.args if a.arg not in names]
+        return fn
+
     def find_views(self, fn, params):
         """static pre-pass -> (viewmap, mutated): the argument arrays the body stores into (directly, through a row view, or
         by passing a row / view / the array to a mutating callee) and the names that are row views of mutated 2-d arguments"""
@@ -1565,6 +1654,9 @@ class FnTranslator:
                     if isinstance(t, ast.Subscript) and isinstance(t.value, ast.Name):
                         stores |= cand.get(t.value.id, {t.value.id})
         stores |= set(self.mutcall_arrays(fn, cand))
+        for x in ast.walk(fn):
+            if isinstance(x, ast.Expr) and self.fill_stmt(x.value) is not None:
+                stores.add(self.fill_stmt(x.value)[0])          # `x.fill(c)` stores into x
         mutated = [n for n, _ in params if n in stores]
         viewmap = {}
         for v, arrs in cand.items():
@@ -1599,13 +1691,39 @@ class FnTranslator:
         alias = self.sig.get("alias") or {}
         if alias:
             self.fn = self.alias_args(self.fn, alias)
+        empty_star = list(self.sig.get("empty_star") or ())
+        if empty_star:
+            self.fn = self.drop_empty_star(self.fn, empty_star)
+        fnargs = dict(self.sig.get("fnargs") or {})
+        if fnargs:
+            # function-valued arguments: opaque helpers that are parameters of the source function itself
+            names = [x.arg for x in self.fn.args.args]
+            import copy
+            self.fn = copy.deepcopy(self.fn)
+            for h in fnargs:
+                if h not in names or h in self.opaque:
+                    raise Unsupported("function argument %s is not an argument / is also an opaque helper" % h)
+                self.opaque[h] = fnargs[h]
+            nd = len(self.fn.args.defaults)
+            if nd and any(x.arg in fnargs for x in self.fn.args.args[len(self.fn.args.args) - nd:]):
+                raise Unsupported("function argument with a default value")
+            self.fn.args.args = [x for x in self.fn.args.args if x.arg not in fnargs]
         fn = self.fn
         a = fn.args
         if a.vararg or a.kwarg or a.kwonlyargs or a.posonlyargs:
             raise Unsupported("argument kinds")
         env, params = {}, []
         argt = self.sig.get("args", {})
+        self.fnparams = []
         for arg in a.args:
+            if arg.arg in self.opaque:
+                # a function-valued ARGUMENT declared in `opaque` (e.g. `metric`): not an ordinary parameter; it is the opaque
+                # function parameter of the generated definition (only calls of it are accepted; any other use of the name fails)
+                if arg.arg in argt:
+                    raise Unsupported("argument %s is declared both opaque and with a type" % arg.arg)
+                self.fnparams.append(arg.arg)
+                self.opaque_used.add(arg.arg)
+                continue
             t = argt.get(arg.arg) or DEFAULT_ARG_TYPES.get(arg.arg)
             if t is None:
                 raise Unsupported("no type for argument " + arg.arg)
@@ -1658,7 +1776,8 @@ class FnTranslator:
         return head + body + ".\n" + defaults_txt, {"args": params, "ret": rt, "ext": self.uses_ext, "mutates": self.mutated,
                                       "fuel": self.has_fuel, "opaque": opq, "pinf": self.uses_pinf, "fixed": dict(fixed),
                                       "defaults": {n: self.defaults[n] for n, _ in params if n in self.defaults},
-                                      "valret": getattr(self, "valret", False), "alias": dict(alias), "views": dict(self.viewmap)}
+                                      "valret": getattr(self, "valret", False), "alias": dict(alias), "views": dict(self.viewmap),
+                                      "fnparams": list(self.fnparams)}
 
 
 COQ_RESERVED = {"at", "as", "in", "fun", "let", "match", "end", "with", "then", "else", "if", "return", "forall", "exists", "fix", "cofix",
